@@ -1,7 +1,7 @@
 (* C18 -- Logging never fails the caller, stays bounded, and its files read back.
    Property theorems only; proofs live in lib/LogBufProofs.v; the model lib/LogBuf.v interprets the constants and
    shape facts translated from logging/{log,levels,incident,flogfile,publish}.py into gen/LogBufGen.v. *)
-From Coq Require Import ZArith List Bool Lia Sorting.Sorted.
+From Coq Require Import ZArith List Bool Lia Sorting.Sorted Sorting.Permutation.
 Import ListNotations.
 Require Import Verif.lib.PyLite Verif.gen.LogBufGen Verif.lib.LogBuf Verif.lib.LogBufProofs.
 Local Open Scope Z_scope.
@@ -140,3 +140,31 @@ Theorem C18_incident_recorded_when_encodable : forall c sz b i e,
      i_rep (x_inc a) = Some (mkRep e (sort_by_num (all_buffered (x_bufs a))) TRAILING_EVENT_LIMIT true)).
 Proof. exact incident_recorded_guarded. Qed.
 Print Assumptions C18_incident_recorded_when_encodable.
+
+(* "each remote subscriber at most its queue limit" also for subscribers that ask for catch-up, whatever the buffers
+   hold (far more than MAX_QUEUE_SIZE events included): the catch-up batch -- everything buffered, in number order --
+   goes straight to the observer; queue and in-flight counter start empty and stay within their limits *)
+Theorem C18_subscriber_bounded_after_catchup : forall catch_up b ops,
+  let '(s0, direct) := sub_subscribe catch_up b in
+  let s := fold_left (sub_step MAX_QUEUE_SIZE MAX_IN_FLIGHT) ops s0 in
+  q_queue s0 = [] /\ q_inflight s0 = 0 /\
+  (catch_up = true -> Permutation direct (all_buffered b) /\ StronglySorted num_le direct) /\
+  Z.of_nat (List.length (q_queue s)) <= MAX_QUEUE_SIZE /\ 0 <= q_inflight s <= MAX_IN_FLIGHT /\
+  subseq (q_delivered s ++ q_queue s) (q_emitted s).
+Proof.
+  intros catch_up b ops. apply subscriber_bounded_after_catchup; unfold MAX_QUEUE_SIZE, MAX_IN_FLIGHT; discriminate.
+Qed.
+Print Assumptions C18_subscriber_bounded_after_catchup.
+
+(* "Every event that is written to a log or incident file can be read back": every writer compresses according to the
+   name get_events will see.  flogtool filter -- into a new file or in place (written as NAME.tmp, then renamed), plain
+   or .bz2, any --above / --strip-facility selection -- reads back exactly the records it kept; LogFileObserver files
+   read back (plain and .bz2).  Rests on the translated facts filter_codec_from / logfile_codec_from = FinalName. *)
+Theorem C18_filter_reads_back : forall above strip final_bz2 inplace recs,
+  filter_run above strip final_bz2 inplace recs = Some (filter (filter_keep above strip) recs).
+Proof. exact filter_reads_back. Qed.
+Print Assumptions C18_filter_reads_back.
+
+Theorem C18_logfile_reads_back : forall name_bz2 recs, logfile_written name_bz2 recs = Some recs.
+Proof. exact logfile_reads_back. Qed.
+Print Assumptions C18_logfile_reads_back.
